@@ -289,6 +289,9 @@ pub fn discard(world: &World, e: &str) -> CaseOut {
         out.violate(&libg::panic_signature(e), format!("panic while building the graph: {e}"), world.describe());
     } else {
         out.count("discarded_network");
+        if std::env::var("VERIF_DEBUG").is_ok() {
+            out.count(&format!("discard_reason_{}", e.chars().take(60).collect::<String>().replace([' ', '\n'], "_")));
+        }
         out.inconclusive("network rejected by graph construction");
     }
     out
